@@ -112,7 +112,7 @@ func runX(pl XPlan) (res vfx.Result) {
 	if pl.Hold {
 		// park a membership callback (join of "blocker") under the node lock a third of the way into the suspicion
 		time.Sleep(time.Until(suspAt.Add(timeout / 3)))
-		p.Rec.HoldName, p.Rec.HoldEvent = "blocker", hold
+		p.Rec.Hold("blocker", hold)
 		send(puppet.Claim{Kind: "alive", Node: "blocker", Inc: 1, Addr: []byte{10, 0, 9, 8}, Port: 7946, Vsn: vsn}.Leaf())
 		parked = waitFor(timeout/3, func() bool { return p.Rec.Holding.Load() != 0 })
 		logf("lock held: %v", parked)
